@@ -3,7 +3,7 @@
    processBlock/deleteBlock batches, block cache). *)
 From Coq Require Import List NArith ZArith Bool.
 From LE Require Import Base.Lex Store.SMap Store.PebbleIter Store.PebbleIterProofs Store.DiffDB Store.DiffDBProofs
-  Store.DiffDBSpec Store.DiffDBRefine Store.Diff Chain.BlockStore Chain.BlockStoreProofs Chain.U32 Chain.Reorg Chain.History Chain.HistoryExample.
+  Store.DiffDBSpec Store.DiffDBRefine Store.Diff Chain.BlockStore Chain.BlockStoreProofs Chain.U32 Chain.Reorg Chain.History Chain.HistoryExample Chain.Exceptions.
 Import ListNotations.
 Local Open Scope N_scope.
 
@@ -91,6 +91,24 @@ Proof. exact events_range_heights. Qed.
 
 Theorem C05_exception_diff_heights : forall h, h < 4294967296 -> u32_of (tl (kDiff h)) = h.
 Proof. exact diff_key_height. Qed.
+
+(* the exceptions are confined to the finalized part of the chain: apart from the marker 1b and the temp record 07|h
+   of the block's height, an exception key is an event record of a height <= the finalized height or a diff record of
+   a height < it; so deleting the tip restores every record that is not about finalized heights *)
+Theorem C05_exception_within_finalized : forall fh h keep prune k, fh < 4294967296 ->
+  (forall m, prune = Some m -> m <= fh) ->
+  exception (ev_bound fh h keep) prune [h] k = true ->
+  keqb k kFinalized || keqb k (kTemp h) || below_finalized fh k = true.
+Proof. exact exception_within_finalized. Qed.
+
+Theorem C05_delete_inverts_apply_above_finalized_partial : forall db c diff_enc prune b events fh rt keep st k,
+  sorted db -> wf_db db -> Inv db c -> cache_pref [pfxState] c ->
+  fresh db (kDiff (b_height b) :: block_keys b) ->
+  fh < 4294967296 -> (forall m, prune = Some m -> m <= fh) ->
+  k <> kFinalized -> k <> kTemp (b_height b) -> below_finalized fh k = false ->
+  lookup (apply_writes (delete_batch (diff_of c) b st)
+           (apply_writes (apply_batch db c diff_enc prune b events fh rt keep) db)) k = lookup db k.
+Proof. exact delete_inverts_apply_above_finalized. Qed.
 
 (* removed blocks are kept retrievable as temporary blocks when requested *)
 Theorem C05_temp_block_saved : forall db b, sorted db ->
